@@ -53,9 +53,60 @@ def _san_env():
             "OMP_NUM_THREADS": "1"}
 
 
+def foreign_files():
+    """files written by the independent writer tools/pq.py: dictionary-encoded pages (RLE_DICTIONARY / PLAIN_DICTIONARY,
+    fixed width and BYTE_ARRAY, nullable), page and chunk statistics, key/value metadata, encoding stats, column orders -
+    everything carquet's own writer never produces but its reader allocates for"""
+    import struct
+    import pq
+    out = []
+    n = 120
+    for codec in ("UNCOMPRESSED", "SNAPPY", "GZIP", "ZSTD"):
+        path = tmpdir() / f"foreign_{codec.lower()}.parquet"
+        out.append(path)
+        if path.exists() and path.stat().st_size > 12:
+            continue
+        root = pq.SchemaNode("schema", "REQUIRED", children=[
+            pq.SchemaNode("a", "OPTIONAL", "INT32", 0), pq.SchemaNode("s", "REQUIRED", "BYTE_ARRAY", 0),
+            pq.SchemaNode("t", "OPTIONAL", "BYTE_ARRAY", 0), pq.SchemaNode("d", "REQUIRED", "DOUBLE", 0)])
+        defs = [0 if i % 5 == 0 else 1 for i in range(n)]
+        tdefs = [0 if i % 7 == 3 else 1 for i in range(n)]
+
+        def pages(enc):
+            ps = [pq.PageSpec(40, enc) for _ in range(3)]
+            for p_ in ps:
+                p_.crc = True
+                p_.stats = True
+            return ps
+        cols = [pq.ColumnSpec(defs, [0] * n, [struct.pack("<i", (i * 7) % 13) for i in range(n) if defs[i]], pages("RLE_DICTIONARY"), codec, dictionary="auto", chunk_stats=True, dict_crc=True),
+                pq.ColumnSpec([0] * n, [0] * n, [("str%d" % (i % 11)).encode() for i in range(n)], pages("PLAIN_DICTIONARY"), codec, dictionary="auto", chunk_stats=True, dict_crc=True),
+                pq.ColumnSpec(tdefs, [0] * n, [("opt-%d" % (i % 9)).encode() for i in range(n) if tdefs[i]], pages("RLE_DICTIONARY"), codec, dictionary="auto", chunk_stats=True, dict_crc=True),
+                pq.ColumnSpec([0] * n, [0] * n, [struct.pack("<d", i * 0.5) for i in range(n)], pages("PLAIN"), codec, chunk_stats=True)]
+        spec = pq.FileSpec(root, [pq.RowGroupSpec(n, cols)])
+        spec.optional_meta = True
+        tmp = path.with_suffix(".tmp%d" % os.getpid())
+        tmp.write_bytes(pq.write_file(spec, random.Random(5)))
+        os.replace(tmp, path)
+    return out
+
+
 def scenarios(tier):
     d = tmpdir()
-    sc = ["schema 6", "schema 70", "schema 3500"]
+    sc = ["schema 6", "schema 70", "schema 3500", "coreapi"]
+    # files of another writer: dictionary pages, statistics, key/value metadata (allocation sites of the reader that
+    # carquet's own files never reach)
+    for i, path in enumerate(foreign_files()):
+        modes = ("fread", "mmap", "buffer")
+        sc.append(f"foreign {path} {modes[i % 3]} col")
+        sc.append(f"foreign {path} {modes[(i + 1) % 3]} batch")
+        if tier == "thorough":
+            sc.append(f"foreign {path} {modes[(i + 2) % 3]} col")
+    # the FILE*-based writer entry point (default options), logical types, a REPEATED column written with repetition levels
+    sc.append(f"writef {d} 0 iLbBr 2 2 12 abort")
+    sc.append(f"write {d} 1 ibrq 1 2 40 close")
+    # batch reader with a column projection by index and by name
+    sc.append(f"batchidx {d} 0 iLDfBox 2 2 12 fread")
+    sc.append(f"batchname {d} 1 iLDfBox 2 2 12 mmap")
     small = "iLDfBox"
     for codec in CODECS:
         for after in ("abort", "close"):
@@ -226,7 +277,7 @@ def run_all(rep, tier, rng, drv, ext=False):
                           f"intended table", {"case": "count " + s})
             continue
         if not o.startswith("OK") or kv.get("ok") != "1" or kv.get("exit") != "0" or kv.get("leak") != "0":
-            rep.violation(f"fault-free run of scenario '{' '.join(s.split()[:1] + s.split()[2:])}' is not clean: {o[:400]}", {"case": "count " + s})
+            rep.violation(f"fault-free run of scenario '{short(s)}' is not clean: {o[:400]}", {"case": "count " + s})
             continue
         K = int(kv["K"])
         chains = o.split("sites=", 1)[1].split(",") if K else []
@@ -283,8 +334,10 @@ def run_all(rep, tier, rng, drv, ext=False):
 
 def short(s):
     t = s.split()
-    if t[0] == "schema":
+    if t[0] in ("schema", "coreapi"):
         return s
+    if t[0] == "foreign":
+        return f"foreign {Path(t[1]).name} {t[2]} {t[3]}"
     return f"{t[0]} codec={CODECS.get(int(t[2]), t[2])} cols={t[3]} rg={t[4]} pages={t[5]} rows/page={t[6]} {t[7]}"
 
 
